@@ -239,3 +239,75 @@ theorem terminal_spec {g : G} (h : GInv g) :
   simp [q, G.Node]
 
 end DG
+
+namespace DG
+
+theorem all_mapM_ok {α : Type} (f : α → Except Err Bool) (q : α → Bool) (l : List α)
+    (h : ∀ a ∈ l, f a = .ok (q a)) : l.mapM f = .ok (l.map q) :=
+  mapM_ok_of_forall f q l h
+
+theorem edge_nodes_q {g : G} {u w : Nat} (h : g.Edge u w) : u ∈ g.nodes.seq := by
+  obtain ⟨a, b, s, ha, _, _, _⟩ := h
+  exact List.mem_of_getElem? ha
+
+/-- `g <= h`: every node of `g` is a node of `h` and every edge of `g` is an edge of `h` -/
+theorem le_spec {g h : G} (hg : GInv g) (hh : GInv h) :
+    ∃ b, g.le h = .ok b ∧ (b = true ↔ (∀ z, g.Node z → h.Node z) ∧ ∀ u w, g.Edge u w → h.Edge u w) := by
+  classical
+  by_cases hnodes : g.nodes.seq.all h.contains = true
+  · have hsub : ∀ z, g.Node z → h.Node z := by
+      intro z hz
+      have := List.all_eq_true.1 hnodes z hz
+      exact (hh.contains_iff z).1 this
+    let q : Nat → Bool := fun x => decide (∀ w, g.Edge x w → h.Edge x w)
+    have hm : g.nodes.seq.mapM (fun x => do
+        let dg ← g.dependencies x
+        let dh ← h.dependencies x
+        pure (dg.all (· ∈ dh))) = .ok (g.nodes.seq.map q) := by
+      apply mapM_ok_of_forall
+      intro x hx
+      obtain ⟨lg, hlg, mg⟩ := (dependencies_ok hg x).2 hx
+      obtain ⟨lh, hlh, mh⟩ := (dependencies_ok hh x).2 (hsub x hx)
+      rw [hlg, hlh]
+      simp only [bind, Except.bind, pure, Except.pure]
+      congr 1
+      simp only [q]
+      rw [Bool.eq_iff_iff, List.all_eq_true, decide_eq_true_eq]
+      constructor
+      · intro hall w hw
+        have := hall w ((mg w).2 hw)
+        exact (mh w).1 (by simpa using this)
+      · intro hall w hw
+        simpa using (mh w).2 (hall w ((mg w).1 hw))
+    refine ⟨(g.nodes.seq.map q).all id, ?_, ?_⟩
+    · unfold G.le
+      simp only [bind, Except.bind, pure, Except.pure] at hm
+      simp only [hnodes, Bool.not_true, Bool.false_eq_true, if_false, bind, Except.bind, pure, Except.pure]
+      rw [hm]
+    · rw [List.all_eq_true]
+      constructor
+      · intro hall
+        refine ⟨hsub, ?_⟩
+        intro u w huw
+        have hu : u ∈ g.nodes.seq := (edge_nodes_q huw)
+        have := hall (q u) (List.mem_map.2 ⟨u, hu, rfl⟩)
+        simp only [id, q, decide_eq_true_eq] at this
+        exact this w huw
+      · rintro ⟨_, he⟩ b hb
+        obtain ⟨x, _, rfl⟩ := List.mem_map.1 hb
+        simp only [id, q, decide_eq_true_eq]
+        exact fun w hw => he x w hw
+  · refine ⟨false, ?_, ?_⟩
+    · unfold G.le
+      have : g.nodes.seq.all h.contains = false := by simpa using hnodes
+      simp [this, pure, Except.pure, bind, Except.bind]
+    · constructor
+      · intro hf; cases hf
+      · rintro ⟨hn, _⟩
+        exfalso
+        apply hnodes
+        rw [List.all_eq_true]
+        intro z hz
+        exact (hh.contains_iff z).2 (hn z hz)
+
+end DG
